@@ -9,7 +9,8 @@ from .c01 import _contracts, _drain, _lib
 
 def plan(tier, seed):
     n, nsh = (16000, 16) if tier == 'quick' else (400000, 16)
-    return [{'part': 'random', 'n': n // nsh, 'shard': sh} for sh in range(nsh)] + [{'part': 'builtins', 'shard': 0}]
+    return [{'part': 'random', 'n': n // nsh, 'shard': sh} for sh in range(nsh)] + [{'part': 'builtins', 'shard': 0}] + \
+        [{'part': 'history', 'n': 60 if tier == 'quick' else 1500, 'shard': 0}, {'part': 'include_scope', 'n': 400 if tier == 'quick' else 20000, 'shard': 0}]
 
 
 def meta(tier):
@@ -19,7 +20,7 @@ def meta(tier):
                  'and expression built-ins; optional "..." rest parameter) called with 0-5 arguments directly, through a variable, '
                  'through systemPartial and as arraySort / arrayIndexOf callbacks; bodies assign locals that shadow globals, write '
                  'globals through systemGlobalSet and log their parameters; host configurations pre-populate globals that shadow '
-                 'library names with recording stubs; script functions replace library functions; functions mutating their rest array are bound with systemPartial and called repeatedly; each of the 46 expression built-ins is shadowed by a global / local / host global inside data expressions / script function. Non-trivial: >= 1 script '
+                 'library names with recording stubs; script functions replace library functions; functions mutating their rest array are bound with systemPartial and called repeatedly; histories of runs that pass their own globals / no globals key / no options (the library dictionary is never written, nothing leaks into later runs); include statements inside function bodies (plain, in if/for/while) run in global scope against RefVM; each of the 46 expression built-ins is shadowed by a global / local / host global inside data expressions / script function. Non-trivial: >= 1 script '
                  'function call observed in the log; distinct = distinct (program text, initial globals, host configuration).'),
         'exhaustive': False,
         'assumptions': ['arrayLength/arrayGet are never redefined by generated scripts (the for lowering calls them by name)',
@@ -97,9 +98,160 @@ def run_builtins(acc):
     acc.sample({'builtin_shadowing': 'global / local / host global in data expression / script function, for each of the 46 aliases'}, limit=1)
 
 
+HISTORY_SCRIPTS = [
+    "counter = 5\nfunction helper(a):\n    return a + counter\nendfunction\nreturn helper(1)",
+    "function arrayNew(a):\n    return 'script arrayNew'\nendfunction\nmathAbs = 7\nreturn arrayNew(1)",
+    "leftover = arrayNew(1, 2)\nsystemGlobalSet('viaSet', 3)\nreturn leftover",
+    "function stringLength(s):\n    return 0 - 1\nendfunction\nreturn stringLength('abc')",
+    "return arrayLength(arrayNew(1, 2, 3)) + stringLength('ab') + mathAbs(0 - 1)",
+    "zz = objectNew('a', 1)\nobjectSet(zz, 'b', 2)\nreturn objectKeys(zz)",
+]
+
+
+def run_history(spec, acc):
+    """Histories of execute_script / evaluate_expression calls in ONE process, with every way of passing globals (own dict,
+    options without 'globals', options omitted): the names a run leaves behind live in ITS globals object only; the library
+    dictionary is never written; a later run with fresh globals sees exactly the library plus its own assignments."""
+    import bare_script
+    from bare_script.library import EXPRESSION_FUNCTIONS, SCRIPT_FUNCTIONS
+    from bare_script.runtime import evaluate_expression
+    snap_lib = dict(SCRIPT_FUNCTIONS)
+    snap_expr = dict(EXPRESSION_FUNCTIONS)
+    models = [bare_script.parse_script(t) for t in HISTORY_SCRIPTS]
+    rnd = random.Random(spec['seed'] * 7919 + 131)
+    cold = {}
+    for ix, m in enumerate(models):
+        g = {}
+        cold[ix] = (refval.canon(bare_script.execute_script(m, {'globals': g})), sorted(k for k in g if k not in snap_lib or g[k] is not snap_lib[k]))
+    for h in range(spec['n']):
+        seq = [rnd.randrange(len(models)) for _ in range(rnd.randint(3, 8))]
+        for step, ix in enumerate(seq):
+            mode = rnd.choice(['own', 'own', 'no-globals-key', 'no-options', 'none-globals'])
+            case = {'history': seq[:step + 1], 'mode': mode}
+            g = None
+            try:
+                if mode == 'own':
+                    g = {}
+                    res = bare_script.execute_script(models[ix], {'globals': g})
+                elif mode == 'no-globals-key':
+                    o = {}
+                    res = bare_script.execute_script(models[ix], o)
+                    g = o.get('globals')
+                elif mode == 'none-globals':
+                    o = {'globals': None}
+                    res = bare_script.execute_script(models[ix], o)
+                    g = o.get('globals')
+                else:
+                    res = bare_script.execute_script(models[ix])
+            except Exception as exc:  # pylint: disable=broad-except
+                acc.violation('history-run-raised', f'{mode}: {type(exc).__name__}: {exc} after {seq[:step]}', case)
+                return
+            acc.case(('history', tuple(seq[:step + 1]), mode), step >= 1)
+            acc.count('history_runs')
+            acc.cover('globals_modes', mode)
+            if refval.canon(res) != cold[ix][0]:
+                acc.violation('run-depends-on-earlier-runs', f'script {ix} ({mode}) returned {res!r} after history {seq[:step]}; alone it returns {cold[ix][0]!r}', case)
+                return
+            if g is not None:
+                if g is SCRIPT_FUNCTIONS:
+                    acc.violation('library-dict-used-as-globals', f'mode {mode}: the run\'s globals object IS the library dictionary', case)
+                    return
+                own = sorted(k for k in g if k not in snap_lib or g[k] is not snap_lib[k])
+                if own != cold[ix][1]:
+                    acc.violation('globals-leak-between-runs', f'script {ix} ({mode}) after history {seq[:step]} ends with own names {own}; alone: {cold[ix][1]}', case)
+                    return
+            # the library (and the expression built-ins) are exactly what they were at import
+            for name, snap, live in (('SCRIPT_FUNCTIONS', snap_lib, SCRIPT_FUNCTIONS), ('EXPRESSION_FUNCTIONS', snap_expr, EXPRESSION_FUNCTIONS)):
+                if live.keys() != snap.keys() or any(live[k] is not snap[k] for k in snap):
+                    diff = sorted(set(live) ^ set(snap)) + sorted(k for k in snap if k in live and live[k] is not snap[k])
+                    acc.violation('library-modified', f'{name} changed after a run in mode {mode}: {diff[:8]}', case)
+                    return
+            acc.count('library_identity_checks')
+        # expression evaluation without options / globals reads unknown names as null and sees the built-ins only
+        for e, want in (({'variable': 'counter'}, None), ({'variable': 'leftover'}, None), ({'function': {'name': 'abs', 'args': [{'number': -2.0}]}}, 2)):
+            for opts in (None, {}, {'globals': {}}):
+                got = evaluate_expression(e, opts)
+                acc.count('expression_without_globals_checks')
+                if got != want:
+                    acc.violation('expression-sees-leftovers', f'{e} with options {opts!r} = {got!r}, expected {want!r}', {'history': seq})
+                    return
+
+
+INC_FILES = [
+    ("va = va + 10\nloc1 = 'set by include'\nsystemLog('inc sees p0=' + jsonStringify(p0) + ' va=' + jsonStringify(va))\nfunction fromInc(x):\n    return arrayNew(x, va, loc1, p0)\nendfunction"),
+    ("p0 = 'include wrote p0'\nsystemLog('inc2 ' + jsonStringify(arrayNew(va, vb)))\nvb = 'B'"),
+    ("if va:\n    vb = vb + 1\nelse:\n    vb = 0 - 1\nendif\nfor it in arrayNew(1, 2):\n    vc = it\nendfor\nreturn 99"),
+    ("function p0(x):\n    return 'p0 is a function now'\nendfunction\nva = p0"),
+]
+
+
+def run_include_scope(spec, acc):
+    """An include statement inside a function body (also nested in its if / loop blocks) runs the included text in GLOBAL scope:
+    its assignments reach the globals object and never the call's locals, its reads never see parameters or locals.
+    Oracle: RefVM over the same virtual files."""
+    from . import c17
+    api = c17._api()
+    bare_script = api[0]
+    rnd = random.Random(spec['seed'] * 7919 + 137)
+    for i in range(spec['n']):
+        k = rnd.randrange(len(INC_FILES))
+        k2 = rnd.randrange(len(INC_FILES))
+        params = rnd.choice([['p0'], ['p0', 'va'], ['va', 'vb'], ['p0', 'loc1'], []])
+        inc = f"include 'lib{k}.bare'"
+        wrap = rnd.choice(['plain', 'if', 'for', 'while'])
+        if wrap == 'if':
+            body_inc = f"    if true:\n        {inc}\n    endif"
+        elif wrap == 'for':
+            body_inc = f"    for itx in arrayNew(1):\n        {inc}\n    endfor"
+        elif wrap == 'while':
+            body_inc = f"    wq = 0\n    while wq < 1:\n        wq = wq + 1\n        {inc}\n    endwhile"
+        else:
+            body_inc = f"    {inc}"
+        pre = rnd.choice(["", "    loc1 = 'local before'\n", "    va = 'local va'\n"])
+        main = (f"function loader({', '.join(params)}):\n{pre}{body_inc}\n"
+                f"    systemLog('after include: ' + jsonStringify(arrayNew({', '.join(params + ['loc1', 'va', 'vb'])})))\n"
+                f"    return arrayNew({', '.join(params) or 'null'})\nendfunction\n"
+                f"systemLog('r=' + jsonStringify(loader({', '.join(rnd.choice(['1', chr(39) + 'arg' + chr(39), 'null', 'va']) for _ in range(rnd.randint(0, len(params) + 1)))})))\n"
+                + (f"include 'lib{k2}.bare'\n" if rnd.random() < 0.4 else '')
+                + "if fromInc:\n    systemLog('fromInc ' + jsonStringify(fromInc(5)))\nendif\n"
+                "systemLog('end ' + jsonStringify(arrayNew(va, vb, vc, loc1, if(systemType(p0) == 'function', 'fn', p0))))")
+        main = f"va = {rnd.choice(['1', '0', chr(39) + 'g' + chr(39)])}\nvb = {rnd.choice(['2', 'null'])}\n" + main
+        if not include_scope_case(main, acc, api):
+            return
+        acc.cover('include_wrappers', wrap)
+    acc.sample({'include_in_function_example': main.split('\n')[:10]}, limit=1)
+
+
+def include_scope_case(main, acc, api):
+    from . import c17
+    bare_script = api[0]
+    if True:
+        files = {f'lib{j}.bare': t for j, t in enumerate(INC_FILES)}
+        model = bare_script.parse_script(main)
+        case = {'main': main}
+        real = c17.run_real(model, None, files, {}, api, '/sys/')
+        ref = c17.run_ref(model, None, files, {}, api, '/sys/')
+        acc.case(main, True)
+        acc.count('include_in_function_runs')
+        if real is None:
+            acc.timeouts += 1
+            return True
+        bad = [x for x in ('r', 'fetches', 'logs', 'globals') if real[x] != ref[x]]
+        if bad:
+            acc.violation('include-inside-function-scope:' + ','.join(bad), '; '.join(f'{x}: real={real[x]!r:.400} ref={ref[x]!r:.400}' for x in bad) + f'\n{main}', case)
+            return False
+        return True
+
+
 def run_shard(spec, acc):
     if spec.get('part') == 'builtins':
         run_builtins(acc)
+        return
+    if spec.get('part') == 'history':
+        run_history(spec, acc)
+        return
+    if spec.get('part') == 'include_scope':
+        run_include_scope(spec, acc)
         return
     lib = _lib()
     con = _contracts()
@@ -116,6 +268,10 @@ def run_shard(spec, acc):
 
 def replay(spec, acc):
     case = spec['case']
+    if 'main' in case:
+        from . import c17
+        include_scope_case(case['main'], acc, c17._api())
+        return
     if 'prog' not in case:
         acc.note_inconclusive('finding-level replay entry')
         return
